@@ -115,6 +115,7 @@ def gen_custom(rng, tier, index):
     base = rng.choice((0x8000, 0x9000, 0xBF00, 0xC000, 0xE000, rng.randrange(0x8000, 0xF000)))
     scn = {
         'source': 'custom', 'loader': name, 'base': None, 'lbase': base, 'dec_a_jp': rng.random() < 0.35, 'blocks': blocks,
+        'r0': rng.choice((None, 0x80, 0xFF, 0xA5, rng.randrange(256), rng.randrange(128, 256))),
         'tape_fmt': rng.choice(('tap', 'pzx')), 'order_seed': rng.getrandbits(32), 'size': total + 400, 'machine': '48',
     }
     scn['base'] = {'polarity': rng.choice((0, 0, 1)), 'first-edge': rng.choice((0, 0, 1000, prng.log_uniform(rng, 1, 300000))), 'finish-tape': rng.choice((0, 0, 1))}
@@ -171,6 +172,8 @@ def build(scn, wd):
     code, entry = loader_bytes(base + 0x40, name, scn['dec_a_jp'])
     # driver stub at `base`: for each block LD IX,dest; LD DE,len; LD A,flag; SCF; CALL LD-BYTES; JR NC,fail  ... JP done
     stub = bytearray()
+    if scn.get('r0') is not None:
+        stub += bytes((0x3E, scn['r0'], 0xED, 0x4F))          # LD A,r0; LD R,A  (bit 7 of R is program state too)
     ldbytes = base + 0x40 + entry
     dest = (base + 0x40 + len(code) + 0x20) & 0xFFFF
     ranges = []
@@ -187,7 +190,7 @@ def build(scn, wd):
     fail = base + len(stub)
     stub += bytes((0xF3, 0x18, 0xFE))            # fail: DI; JR fail
     # patch JR NC displacements
-    pos = 0
+    pos = 4 if scn.get('r0') is not None else 0
     for b in blocks:
         jr_at = pos + 13
         disp = (fail - base) - (jr_at + 2)
@@ -293,7 +296,7 @@ def gen_profiler(rng, tier, index):
             pulses.append(['seq', [int(rng.choice((300, 667, 735, 855, 1710, 2168, 4000, 9000 if rng.random() < 0.3 else 1500)) * rng.uniform(0.9, 1.1)) for _ in range(rng.randrange(2, 12))]])
     scn = {
         'source': 'profiler', 'family': fam, 'names': PROFILES[fam], 'lbase': rng.choice((0x8000, 0x9000, 0xC000, 0xE000, rng.randrange(0x8000, 0xF000) & 0xFFF0)),
-        'nsamples': nsamples, 'init': rng.randrange(1, 0x90) if inc else rng.randrange(0x70, 0x100), 'pulses': pulses, 'pause_ms': rng.choice((1000, 2000)),
+        'r0': rng.choice((0x22, 0x80, 0xFF, 0xA5, rng.randrange(256), rng.randrange(128, 256))), 'nsamples': nsamples, 'init': rng.randrange(1, 0x90) if inc else rng.randrange(0x70, 0x100), 'pulses': pulses, 'pause_ms': rng.choice((1000, 2000)),
         'tape_fmt': rng.choice(('tap', 'pzx')), 'tape2': 'tzx', 'order_seed': rng.getrandbits(32), 'size': 600, 'machine': '48',
         'base': {'polarity': rng.choice((0, 1)), 'first-edge': rng.choice((0, 0, 1000, prng.log_uniform(rng, 1, 300000))), 'finish-tape': 0},
     }
@@ -335,7 +338,7 @@ def build_profiler(scn, wd):
     buf = base + 0x200
     cnt = base + 0x1F0
     tocnt = base + 0x1F2
-    items = [bytes((0xF3, 0xDD, 0x21)) + _word(buf), bytes((0x3E, scn['nsamples'], 0x32)) + _word(cnt), bytes((0x3E, 3000 & 0xFF, 0x32)) + _word(tocnt) + bytes((0x3E, 3000 >> 8, 0x32)) + _word(tocnt + 1)]
+    items = [bytes((0xF3, 0x3E, scn.get('r0', 0x22), 0xED, 0x4F, 0xDD, 0x21)) + _word(buf), bytes((0x3E, scn['nsamples'], 0x32)) + _word(cnt), bytes((0x3E, 3000 & 0xFF, 0x32)) + _word(tocnt) + bytes((0x3E, 3000 >> 8, 0x32)) + _word(tocnt + 1)]
     if 0xED in code and code[code.index(0xED) + 1] == 0x78 and counter != 3 and ear != 3:
         items.append(bytes((0x0E, 0xFE)))              # LD C,0xFE for IN A,(C)
     flip = b''
